@@ -48,7 +48,7 @@ func genC18(rng *rand.Rand, tier string) *C18Plan {
 		p.Trail = append(p.Trail, rng.IntN(6) == 0)
 		switch p.Comp {
 		case "fstree":
-			p.Ops = append(p.Ops, []string{"get", "put", "delete", "query", "query", "querygone"}[rng.IntN(6)])
+			p.Ops = append(p.Ops, []string{"get", "put", "delete", "query", "query", "querygone", "getmeta"}[rng.IntN(7)])
 		case "dirstruct":
 			p.Ops = append(p.Ops, []string{"abs", "rel", "reldir", "child", "child2"}[rng.IntN(5)])
 		case "scan":
@@ -254,6 +254,13 @@ func execC18(p *C18Plan, rc *simkit.RunCtx) {
 			switch op {
 			case "get":
 				_, err = st.Get(name)
+			case "getmeta":
+				// the path taken by the permission pre-check of a put through an interface without all permissions
+				if mh, ok := st.(storage.MetaHandler); ok {
+					_, err = mh.GetMeta(name)
+				} else {
+					_, err = st.Get(name)
+				}
 			case "put":
 				w, _ := record.NewWrapper("simdb:"+name, &record.Meta{}, dsd.RAW, []byte("written"))
 				_, err = st.Put(w)
